@@ -539,6 +539,59 @@ def calls_decorated(s, k):
     return decorated(s, k) + 1.0
 
 
+def annotated_rebind_param(s, km):
+    s: float = s / km
+    return s / (1.0 + s)
+
+
+def annotated_rebind_local(s, k):
+    v = k * s
+    v: float = v / (1.0 + s)
+    return v + k
+
+
+def annotated_in_branch(s, k):
+    r = s
+    if s > k:
+        r: float = s - k
+    return r * 2.0
+
+
+def annotated_without_value(s, k):
+    v: float
+    v = s * k
+    return v
+
+
+def make_closure_attr():
+    pinst = P()
+    pinst.k = 5.0
+
+    def closure_attr(s):
+        return pinst.k * s
+
+    return closure_attr
+
+
+closure_attr = make_closure_attr()
+
+
+def chain_is_not(x, lo, k):
+    if lo < x is not k:
+        return 1.0
+    return 0.0
+
+
+def chain_is(x, lo, k):
+    if lo < x is k:
+        return 1.0
+    return 0.0
+
+
+def chain_in(x, lo):
+    return x if lo < x in (1.0, 2.0) else lo
+
+
 def early_none(x):
     if x > 1:
         return x
@@ -876,7 +929,22 @@ def known_fns_check(ctx: Ctx, rep: Report) -> dict:
 
     lines = ["import math", "", "import numpy as np", "", ""]
     names, rows, unnamed = [], 0, []
-    for j, fn in enumerate(source_tools.KNOWN_FNS):
+    # the rows of the table AND every function of math / numpy (ufuncs) / the numeric builtins by name: a row that
+    # is absent today is judged as soon as somebody adds it (on HEAD such calls are refused: no source)
+    import builtins
+    import math as _math
+
+    import numpy as _np
+
+    cands = list(source_tools.KNOWN_FNS)
+    cands += [getattr(_math, n) for n in sorted(dir(_math)) if callable(getattr(_math, n)) and not n.startswith("_")]
+    cands += [getattr(_np, n) for n in sorted(dir(_np)) if isinstance(getattr(_np, n), _np.ufunc)]
+    cands += [getattr(builtins, n) for n in ("abs", "min", "max", "pow", "round", "divmod", "float", "int")]
+    seen_ids: set = set()
+    for j, fn in enumerate(cands):
+        if id(fn) in seen_ids:
+            continue
+        seen_ids.add(id(fn))
         src = _source_name(fn)
         if src is None:
             unnamed.append(repr(fn))
